@@ -83,11 +83,11 @@ PROPS = {
     ),
     'C06': dict(
         standins=['expand_message_hash_to_field'],
-        units_quick=['h2c', 'sswu', 'sswuhelp', 'symx:iso', 'cofactor'], units_thorough=['h2c', 'sswu', 'sswuhelp', 'symx:iso', 'cofactor', 'curve', 'okm', 'consts'], timeout=1800,
+        units_quick=['h2c', 'sswu', 'sswuhelp', 'symx:iso', 'cofactor', 'expand'], units_thorough=['h2c', 'sswu', 'sswuhelp', 'symx:iso', 'cofactor', 'expand', 'curve', 'okm', 'consts'], timeout=1800,
         claim="PARTIAL (composition; the parts it composes are run by this check as well: SSWU C15, isogeny C16, cofactor clearing C17): hash_to_curve(msg,dst) = map2_to_curve(u[0],u[1]) with u = hash_to_field(msg,dst,2) and encode_to_curve = "
               "map_to_curve(hash_to_field(msg,dst,1)[0]): element count, indices and which map are verified on the real generic bodies; the result is "
               "a function of (msg, dst) only and is annihilated by r. RFC conformance of the stages is the conjunction of C13, C15, C16, C17, C14 under their scopes.",
-        not_covered=["expand_message_xmd / expand_message_xof and the hash primitives (C13 scope, D3)", "SSWU (C15) and isogeny (C16) internals"],
+        not_covered=["the hash primitives (D3); expand_message itself is under contract in unit expand (run by this check as well)", "SSWU (C15) and isogeny (C16) internals"],
         assumptions=[A['A4'], "contract of hash_to_field (count elements, element i a function of (msg,dst,count,i)) assumed here", A['TOOLS']],
     ),
     'C07': dict(
@@ -234,16 +234,22 @@ PROPS = {
     ),
     'C13': dict(
         standins=['expand_message_hash_to_field'],
-        units_quick=['okm', 'consts'], units_thorough=['okm', 'consts'], timeout=1800,
-        claim="PARTIAL (the reductions and the block splitting): Fq::from_okm(b) = be(b) mod q for every 64-byte block and Fr::from_okm(b) = be(b) mod r for every "
+        units_quick=['okm', 'consts', 'expand'], units_thorough=['okm', 'consts', 'expand', 'mont'], timeout=1800,
+        claim="expand_message (real generic bodies over a model of the digest traits in which a hasher absorbs byte strings in order and its result is a function of what it absorbed): "
+              "ExpandMsgXmd::expand_message returns (b_1 || ... || b_ell)[0..len] with b_0 = H(Z_pad || msg || I2OSP(len, 2) || 0 || DST || I2OSP(|DST|, 1)), b_1 = H(b_0 || 1 || DST'), "
+              "b_i = H(strxor(b_0, b_(i-1)) || i || DST') for every message, every tag of at most 255 bytes, every length below 2^16 with at most 255 blocks, any hash (output and block size as type-level lengths); "
+              "ExpandMsgXof::expand_message returns XOF(msg || I2OSP(len, 2) || DST || I2OSP(|DST|, 1), len); no index out of bounds, no overflow. "
+              "The reductions and the block splitting: Fq::from_okm(b) = be(b) mod q for every 64-byte block and Fr::from_okm(b) = be(b) mod r for every "
               "48-byte block (real bodies: two zero-padded big-endian reads, multiplication by the crate's constant 2^256 resp. 2^192, addition; the unwrap()s are "
               "proved safe because each half is below 2^256 < q resp. 2^192 < r); Fq2::from_ro takes the real part from bytes 0..64 and the u-coefficient from "
               "64..128; hash_to_field returns `count` elements, element i obtained from bytes [i*L, (i+1)*L) of expand_message(msg, dst, count*L) (generic real "
               "body, loop invariant; requires count*L not to overflow usize).",
-        not_covered=["expand_message_xmd / expand_message_xof (digest builder chains, GenericArray, closures: outside the subset) - NOT decided",
-                     "the 255-block abort", "the values of the constants F_2_256 / F_2_192 are closed-term facts: stated as axioms in unit okm and proved (by compute, from the same limbs) in unit consts"],
+        not_covered=["the abort for more than 255 blocks (Verus has no exceptional postcondition: the abort is the precondition `ell <= 255` of the contract; the stand-in observes the panic)",
+                     "the hash functions themselves (sha2 / sha3 crates, D3): `hash` and `xof` are uninterpreted functions of the absorbed bytes", "the values of the constants F_2_256 / F_2_192 are closed-term facts: stated as axioms in unit okm and proved (by compute, from the same limbs) in unit consts"],
         assumptions=["D1/D2 contracts of read_be over Cursor/Chain readers, GenericArray slicing and typenum lengths (assumed stubs)", A['D_FQ'], A['TOOLS'],
-                     "rewrite R12 (range indexing on GenericArray / Vec -> named accessors)"],
+                     "rewrite R12 (range indexing on GenericArray / Vec -> named accessors)",
+                     "unit expand: D3 the digest traits (Digest / BlockInput / ExtendableOutput + Input + Default) are modelled as absorb-then-result machines; GenericArray default / as_ref / full-range index, Vec::with_capacity / extend_from_slice and "
+                     "range indexing through contracted stubs; rewrite R5x: the strxor expression `b_0.iter().zip(&b_vals[a..b]).enumerate().for_each(|(jdx, (b0val, bi1val))| tmp[jdx] = b0val ^ bi1val)` is matched textually and replaced by the contracted helper xor_into"],
     ),
     'C16': dict(
         units_quick=['symx:iso'], units_thorough=['symx:iso'], timeout=1800, category='other',
